@@ -295,7 +295,9 @@ def read_enum(
 
 
 def skip_enum(decoder, writer_schema, named_schemas):
-    decoder.read_enum()
+    index = decoder.read_enum()
+    if index < 0 or index >= len(writer_schema["symbols"]):
+        raise ValueError(f"enum index {index} out of range for {writer_schema}")
 
 
 def read_array(
